@@ -131,7 +131,19 @@ def g_C15(tier):
             'samples': [{'rule': 'G-STD', 'site': s} for s in sites[:4]]}
 
 
-G_PROPS = {'C15': g_C15, 'C02': g_C02}
+def g_C10(tier):
+    """not a rule on nutype: records whether the premise of the byte-identity clause is visible in the locked dependency sources"""
+    from . import gsrc
+    facts = gsrc.dependency_transparency()
+    ok = sum(1 for f in facts if f['verified'])
+    for f in facts:
+        if f['verified'] is False:
+            print(f"NOTE: dependency premise not confirmed in the vendored source: {f['crate']} {f['version']}: {f['fact']}")
+    return {'instances': {'dependency premises confirmed in vendored sources (serde_json, rmp-serde)': ok}, 'findings': [],
+            'samples': [{'dependency_fact': f} for f in facts]}
+
+
+G_PROPS = {'C15': g_C15, 'C02': g_C02, 'C10': g_C10}
 
 # which corpus crates / declarations a property looks at (default: every declaration of std crates + nostd)
 SELECT = {
